@@ -22,7 +22,9 @@
  * Author(s):   Steve Kieffer   <http://skieffer.info>
 */
 
+#include <map>
 #include <memory>
+#include <set>
 #include <functional>
 #include <string>
 #include <iostream>
@@ -218,6 +220,26 @@ void dialect::doHOLA(Graph &G, const HolaOpts &holaOpts, Logger *logger) {
 
     OrthoPlanariser op(core);
     Graph_SP P = op.planarise();
+
+    // From here on it is the planar graph P that is laid out, and P keeps two nodes of the core
+    // aligned only where the connector between them was routed as a straight segment. The router
+    // is free to do otherwise (e.g. in order to save crossings, or so that no node becomes a leaf),
+    // and then nothing maintains the alignment recorded in the core's SepMatrix any longer.
+    // Since the core's constraints are written into the original graph at the end, we now drop
+    // those alignments that the planarisation has not kept.
+    {
+        std::map<id_type, std::set<id_type>> hSets, vSets;
+        P->getSepMatrix().getAlignedSets(hSets, vSets);
+        SepMatrix &coreMatrix = core->getSepMatrix();
+        for (auto p : core->getEdgeLookup()) {
+            id_type s = p.second->getSourceEnd()->id(),
+                    t = p.second->getTargetEnd()->id();
+            if ((coreMatrix.areHAligned(s, t) && hSets[s].count(t) == 0) ||
+                (coreMatrix.areVAligned(s, t) && vSets[s].count(t) == 0)) {
+                coreMatrix.free(s, t);
+            }
+        }
+    }
 
     log(*P, string_format("%02d_planar_graph_P", ln++));
 
